@@ -206,6 +206,17 @@ void run_width(const Case &c, pbt::Ctx &ctx) {
                 ctx.fail("surrounding-text-changed", "loop output lost its surroundings: " + jm::show(out));
             }
             check_escaped(s, seg, "loop key through {var:}", ctx, on);
+            // the same {var:v} as the sub tag of a super variable (phrase "{0}")
+            {
+                jm::Buf<Char_T> qb(ascii("pq"));
+                v[StringView<Char_T>{qb.cp(), 2}] = mk<Char_T>(ascii("{0}"));
+                Units out2 = render<Char_T>(ascii("[<loop set=\"o\" value=\"v\">{svar:pq, {var:v}}</loop>]"), v);
+                Units seg2;
+                if (!cut(out2, ascii("["), ascii("]"), seg2)) {
+                    ctx.fail("surrounding-text-changed", "loop output lost its surroundings: " + jm::show(out2));
+                }
+                check_escaped(s, seg2, "loop key through a {var:} sub tag of {svar:}", ctx, on);
+            }
             break;
         }
         case 4: { // super variable: the phrase text is escaped, {var:} sub-tags are escaped, {raw:} sub-tags verbatim
@@ -293,6 +304,23 @@ void run_width(const Case &c, pbt::Ctx &ctx) {
                 ctx.fail("surrounding-text-changed", "text around the unresolved tag changed: " + jm::show(out));
             }
             check_escaped(tag, seg, "echoed source of an unresolved {var:}", ctx, on);
+            // the same unresolved tag as the sub tag of a super variable (phrase "<{0}>": the phrase text is escaped too)
+            {
+                jm::Buf<Char_T> qb(ascii("pq"));
+                v[StringView<Char_T>{qb.cp(), 2}] = mk<Char_T>(ascii("({0})"));
+                Units whole = cat({ascii("{svar:pq, "), tag, ascii("}")});
+                Units out2  = render<Char_T>(cat({ascii("A"), whole, ascii("B")}), v);
+                Units seg2;
+                if (!cut(out2, ascii("A"), ascii("B"), seg2)) {
+                    ctx.fail("surrounding-text-changed", "text around the super variable changed: " + jm::show(out2));
+                }
+                if (seg2.size() >= 2 && seg2.front() == '(' && seg2.back() == ')') {
+                    check_escaped(tag, Units(seg2.begin() + 1, seg2.end() - 1), "echoed source of an unresolved {var:} sub tag of {svar:}", ctx, on);
+                    ctx.label("unresolved-subtag-of-svar");
+                } else if (decode(seg2) != decode(whole)) { // (a name the sub-tag scan does not take: the whole tag is echoed)
+                    ctx.fail("svar-shape", "{svar:} with an unresolved sub tag printed " + jm::show(seg2) + " for " + jm::show(whole));
+                }
+            }
             Units rtag = cat({ascii("{raw:"), name, ascii("}")});
             Units rout = render<Char_T>(cat({ascii("A"), rtag, ascii("B")}), v);
             if (rout != cat({ascii("A"), rtag, ascii("B")})) {
